@@ -3,6 +3,8 @@
 package main
 
 import (
+	"io"
+	stded "crypto/ed25519"
 	"bytes"
 	"encoding/json"
 	"os"
@@ -22,7 +24,72 @@ import (
 // C18: concurrent use. (a) lock-level traces of shared LRU caches under free-running goroutines,
 // (b) TLC-generated schedules replayed deterministically through the pre-lock gate,
 // (c) concurrent API workload whose results must equal the sequential results (run under -race).
-func init() { recorders["C18"] = recC18 }
+func init() { recorders["C18"] = recC18; recorders["C18cold"] = recC18Cold }
+
+// recC18Cold: the very first library calls of the process are made by 16 goroutines released together (anything the
+// library initialises lazily is initialised under contention). Inputs and expected verdicts come from the standard
+// library's crypto/ed25519, so nothing of the library runs beforehand.
+func recC18Cold(c *ctx) {
+	type tv struct {
+		pub, msg, sig []byte
+		want          bool
+	}
+	var tvs []tv
+	for i := 0; i < 6; i++ {
+		seed := c.r.Bytes(32)
+		k := stded.NewKeyFromSeed(seed)
+		msg := c.r.Bytes(24)
+		sig := stded.Sign(k, msg)
+		tvs = append(tvs, tv{append([]byte(nil), k[32:]...), msg, sig, true})
+		bad := append([]byte(nil), sig...)
+		bad[5] ^= 0x10
+		tvs = append(tvs, tv{append([]byte(nil), k[32:]...), msg, bad, false})
+		msg2 := append(append([]byte(nil), msg...), 1)
+		tvs = append(tvs, tv{append([]byte(nil), k[32:]...), msg2, sig, false})
+	}
+	const G = 16
+	start := make(chan struct{})
+	match := make([]bool, G)
+	var wg sync.WaitGroup
+	for g := 0; g < G; g++ {
+		wg.Add(1)
+		go func(g int) {
+			defer wg.Done()
+			defer func() {
+				if p := recover(); p != nil {
+					match[g] = false
+				}
+			}()
+			<-start
+			ok := true
+			for it := 0; it < 3; it++ {
+				for i := range tvs {
+					t := &tvs[(i+g)%len(tvs)]
+					switch (g + it) % 3 {
+					case 0:
+						ok = ok && ed25519.Verify(t.pub, t.msg, t.sig) == t.want
+					case 1:
+						ep, err := ed25519.NewExpandedPublicKey(t.pub)
+						ok = ok && err == nil && ed25519.VerifyExpanded(ep, t.msg, t.sig) == t.want
+					case 2:
+						bv := ed25519.NewBatchVerifier()
+						bv.Add(t.pub, t.msg, t.sig)
+						all, _ := bv.Verify(nil)
+						ok = ok && all == t.want
+					}
+				}
+			}
+			match[g] = ok
+		}(g)
+	}
+	close(start)
+	if !waitTimeout(&wg, 180*time.Second) {
+		c.abandon(vt.Ev{"op": "conc", "kind": "cold-start", "goroutine": -1, "match": false, "timeout": true})
+	}
+	for g, m := range match {
+		c.w.Emit(vt.Ev{"op": "conc", "cfg": c.cfg, "kind": "cold-start", "goroutine": g, "match": m})
+	}
+}
 
 type keyring struct {
 	priv []ed25519.PrivateKey
@@ -320,6 +387,11 @@ func replaySchedules(c *ctx, col *collector, path string, shard *int) {
 	*shard += 16
 }
 
+// failAfter is an entropy source yielding k zero bytes and then an error (safe for concurrent construction)
+type failAfter int
+
+func (f failAfter) Read(p []byte) (int, error) { return 0, io.ErrUnexpectedEOF }
+
 // concAPI: many goroutines use the library concurrently (shared tables, shared expanded keys, own batch
 // verifiers); every result is compared with the result of the same call made sequentially beforehand.
 func concAPI(c *ctx, shard *int) {
@@ -350,6 +422,17 @@ func concAPI(c *ctx, shard *int) {
 	sharedScalar, _ := scalar.NewFromBits(bytes.Repeat([]byte{0x7f}, 32)) // unreduced
 	sharedPoint := curve.NewEdwardsPoint().Set(curve.ED25519_BASEPOINT_POINT)
 	ver := cache.NewVerifier(cache.NewLRUCache(3))
+	// error paths first: hedged signing with an entropy source that breaks (whatever a failed call holds on to must not
+	// come back to haunt the concurrent phase), repeated inside the goroutines
+	failSign := func(priv ed25519.PrivateKey, msg []byte, rd io.Reader) bool {
+		sig, err := priv.Sign(rd, msg, &ed25519.Options{AddedRandomness: true})
+		return err != nil && sig == nil
+	}
+	failOK := true
+	for i := 0; i < 32; i++ {
+		failOK = failOK && failSign(ed25519.NewKeyFromSeed(jobs[i%n].seed), jobs[i%n].msg, r.FailingEntropy(r.Bytes(64), r.Intn(32)))
+	}
+	c.w.EmitTo(*shard, vt.Ev{"op": "conc", "cfg": c.cfg, "kind": "hedged-sign-fails-on-broken-entropy", "goroutine": -1, "match": failOK})
 	var wg sync.WaitGroup
 	match := make([]bool, 16)
 	for g := 0; g < 16; g++ {
@@ -394,6 +477,9 @@ func concAPI(c *ctx, shard *int) {
 				q2.Sub(&q1, sharedPoint)
 				q2.Mul(sharedPoint, sharedScalar)
 				ok = ok && sharedPoint.Equal(curve.ED25519_BASEPOINT_POINT) == 1
+				if it%8 == 3 {
+					ok = ok && failSign(priv, j.msg, failAfter(it%32))
+				}
 				bv.Add(j.pub, j.msg, j.sig)
 				if it%8 == 7 {
 					all, _ := bv.Verify(nil)
